@@ -51,6 +51,19 @@ def rule_finally_placement(ctx, rep, rid: str) -> None:
         n_try = sum(1 for x in evs if x[0] == "emit" and x[1] == "TRY_START")
         n_fin = sum(1 for x in evs if x[0] == "stmt" and x[1] == "node.finalizer")
         order = [(x[0], x[1] if len(x) > 1 else None) for x in evs]
+        # handler typestate on the normal path: every TRY_START is matched by a TRY_END emitted after the
+        # protected statement (the exceptional path pops the record in _throw)
+        n_end = sum(1 for x in evs if x[0] == "emit" and x[1] == "TRY_END")
+        shape = f"handler={bool(has_h)},finalizer={bool(has_f)}"
+        k2 = f"TryStatement:{shape}:try-end"
+        if k2 not in done:
+            done.add(k2)
+            i_blk = next((i for i, x in enumerate(evs) if x[0] == "stmt" and x[1] == "node.block"), None)
+            i_end = next((i for i, x in enumerate(evs) if x[0] == "emit" and x[1] == "TRY_END"), None)
+            if n_end == n_try and i_blk is not None and i_end is not None and i_blk < i_end:
+                rep.ok(rid, k2)
+            else:
+                rep.bad(rid, k2, f"the try lowering emits {n_try} TRY_START but {n_end} TRY_END after the protected block ({shape}): on normal completion the handler record stays registered and a later, unrelated throw jumps into this catch clause", loc)
         if has_f:
             key = "catch+finally" if has_h else "finally-only"
             if key in done:
